@@ -1,0 +1,36 @@
+//go:build verif
+// +build verif
+
+package tcell
+
+import "sync/atomic"
+
+// Verification schedule points (build tag "verif" only).  verifPoint is called
+// immediately before and after the channel operations of the terminfo screen's
+// goroutines and of the event functions of baseScreen.  By default it does
+// nothing; a test harness can install a controller that records the sequence of
+// points and delays or parks the calling goroutine.
+
+var verifSched atomic.Value // of func(string, ...int)
+
+// VerifSetScheduler installs (or, with nil, removes) the schedule controller.
+func VerifSetScheduler(f func(point string, vals ...int)) {
+	if f == nil {
+		f = func(string, ...int) {}
+	}
+	verifSched.Store(f)
+}
+
+func verifPoint(id string, v ...int) {
+	if f, ok := verifSched.Load().(func(string, ...int)); ok {
+		f(id, v...)
+	}
+}
+
+// verifBool converts a flag to a point value.
+func verifBool(b bool) int {
+	if b {
+		return 1
+	}
+	return 0
+}
